@@ -35,6 +35,14 @@ impl Ctx {
     pub fn left(&self) -> f64 {
         self.budget_s - self.elapsed()
     }
+    /// search depth for the tier; `WPV_QUICK_DEPTH_DELTA` (experiments only) deepens the quick tier
+    pub fn depth(&self, quick: usize, thorough: usize) -> usize {
+        if self.tier.is_quick() {
+            quick + std::env::var("WPV_QUICK_DEPTH_DELTA").ok().and_then(|s| s.parse::<usize>().ok()).unwrap_or(0)
+        } else {
+            thorough
+        }
+    }
     pub fn pick<T>(&self, quick: T, thorough: T) -> T {
         if self.tier.is_quick() {
             quick
